@@ -20,7 +20,9 @@ def claim(pid, technique, text, note, ref):
 claim('C20',
       'abstract interpretation of the AST to a replace-chain / decision table + table comparison',
       'Decides statically, for all inputs: xml_escape is a chain of str.replace links rooted at the '
-      'parameter whose (char, entity) pairs equal the XML predefined-entity table and in which no '
+      'parameter whose (char, entity) pairs cover the XML predefined-entity table and the three '
+      'characters a parser normalises (TAB, LF, CR; each by a character reference of its own code '
+      'point - rule D5, which found defect F11) and in which no '
       'later link can rewrite the output of an earlier one (ampersand first); format_hms, '
       'interpreted over rational normal forms for both unit modes, has the specified decision '
       'table (sub-10 s branch on the scaled duration with 3 decimals; thresholds 60/3600 tested on '
